@@ -159,6 +159,35 @@ class C20(Prop):
                 'modular': {'top': lang.to_jsonable(top), 'defs': [['sa', lang.to_jsonable(pdef)]], 'consts': [],
                             'style': rng.choice(['one-text', 'subspecs'])}}
 
+    def gen_edge(self, rng):
+        """An edge operator (rise/fall) over a compound operand, reached through a window that starts at b >= 1:
+        the edge constrains its operand with one polarity at t-1 and the other at t, and t-1 is covered by nothing
+        else."""
+        n = rng.randint(4, 8)
+        pr = lambda var: lang.N(rng.choice(['gt', 'geq', 'lt', 'leq']), lang.V(var), lang.C(0.0))
+        r = rng.random()
+        if r < 0.45:
+            comp = lang.N(rng.choice(['or', 'and', 'implies']), pr('x'), pr('y'))
+        elif r < 0.7:
+            comp = lang.N(rng.choice(['eventually', 'always', 'once', 'historically']), pr('x'), ivl=(0, rng.choice([1, 2])))
+        else:
+            comp = lang.N(rng.choice(['or', 'and']), pr('x'), lang.N('not', pr('y')))
+        e = lang.N(rng.choice(['fall', 'rise', 'fall']), comp)
+        if rng.random() < 0.4:
+            e = lang.N('not', e)
+        b = rng.randint(1, 2)
+        w = rng.random()
+        if w < 0.4:
+            f = lang.N(rng.choice(['eventually', 'always']), e, ivl=(b, b + rng.randint(0, 2)))
+        elif w < 0.6:
+            f = lang.N('next', e) if b == 1 else lang.N('next', lang.N('next', e))
+        elif w < 0.8:
+            f = lang.N(rng.choice(['and', 'or']), lang.N('next', e), pr(rng.choice(['x', 'y'])))
+        else:
+            f = lang.N(rng.choice(['eventually', 'always']), e)
+        vals = [-2.0, -1.0, 1.0, 2.0, 0.0]
+        return {'formula': f, 'data': dict((k, [rng.choice(vals) for _ in range(n)]) for k in lang.variables(f))}
+
     def gen_filtered(self, rng):
         """A temporal operator reached through Boolean filters under a range context:
         OUT( p1 B1 ( p2 B2 T(p3) ) ). The filters forward only the stretches where their other operand does not
@@ -206,11 +235,13 @@ class C20(Prop):
 
     def gen(self, rng, ctx):
         r = rng.random()
-        if r < 0.12:
+        if r < 0.06:
+            return self.gen_edge(rng)
+        if r < 0.16:
             return self.gen_shared_name(rng)
-        if r < 0.3:
+        if r < 0.32:
             return self.gen_filtered(rng)
-        if r < 0.4:
+        if r < 0.42:
             return self.gen_nested(rng)
         if r < 0.55:
             return self.gen_multi_occurrence(rng)
